@@ -4,6 +4,6 @@ CONSTANTS
   PVT = 50
   Cap = 2048
   BatchMax = 1024
-INVARIANTS LastIsFresh FailureMeansNoRun
+INVARIANTS LastIsFresh FailureMeansNoRun C10Inv
 POSTCONDITION Accepted
 CHECK_DEADLOCK FALSE
